@@ -178,6 +178,27 @@ def run(case):
     from vt.e1 import calls
     obs.append(compare('qr(economic)', case, lambda x: linalg.qr(x, mode='economic'), lambda ex, st, x: calls.qr_rq(ex, st, 'qr', x, {'mode': 'economic'}, 0), [m1.copy()], check_alias=False))
     obs.append(compare('rq(economic)', case, lambda x: linalg.rq(x, mode='economic'), lambda ex, st, x: calls.qr_rq(ex, st, 'rq', x, {'mode': 'economic'}, 0), [m1.copy()], check_alias=False))
+    # least squares (solution shape), reshape with a free axis, three-operand einsum with a broadcast (1, 1) operand
+    mt = rnd(rng, (d(), d()), False, lay)
+    bv = rnd(rng, (mt.shape[0] if k % 4 else mt.shape[0] + 1,), False)
+    obs.append(compare('lstsq(matrix, vector)', case, lambda x, y: linalg.lstsq(x, y, cond=1e-12, lapack_driver='gelss')[0],
+                       lambda ex, st, x, y: calls.modfunc(ex, st, 'lin', 'lstsq', [x, y], {}, 0).items[0], [mt.copy(), bv], check_alias=False))
+    bm = rnd(rng, (mt.shape[0], d()), False)
+    obs.append(compare('lstsq(matrix, matrix)', case, lambda x, y: linalg.lstsq(x, y)[0],
+                       lambda ex, st, x, y: calls.modfunc(ex, st, 'lin', 'lstsq', [x, y], {}, 0).items[0], [mt.copy(), bm], check_alias=False))
+    last = int(a.shape[3])
+    obs.append(compare('reshape(-1, n)', case, lambda x: x.reshape(-1, last), lambda ex, st, x: npmodel.reshape(ex, st, x, [-1, last], 0), [a], check_alias=bool(a.flags['C_CONTIGUOUS'])))
+    first = int(a.shape[0])
+    obs.append(compare('reshape(n, -1)', case, lambda x: x.reshape(first, -1), lambda ex, st, x: npmodel.reshape(ex, st, x, [first, -1], 0), [a], check_alias=bool(a.flags['C_CONTIGUOUS'])))
+    one = np.array([1], ndmin=2)
+    bas = rnd(rng, (d(), d(1, 5)), False)
+    cor = rnd(rng, (1, bas.shape[0], d()), False)
+    obs.append(compare('einsum(ij,kj,ikl->lj) broadcast', case, lambda x, y, z: np.einsum('ij, kj, ikl -> lj', x, y, z),
+                       lambda ex, st, x, y, z: npmodel.einsum(ex, st, 'ij, kj, ikl -> lj', [x, y, z], 0), [one, bas, cor], check_alias=False))
+    sl_ = rnd(rng, (d(), bas.shape[1]), False)
+    sr_ = rnd(rng, (d(), bas.shape[1] if k % 3 else bas.shape[1] + 1), False)
+    obs.append(compare('einsum(ij,kj,lj->iklj)', case, lambda x, y, z: np.einsum('ij,kj,lj->iklj', x, y, z),
+                       lambda ex, st, x, y, z: npmodel.einsum(ex, st, 'ij,kj,lj->iklj', [x, y, z], 0), [sl_, bas, sr_], check_alias=False))
     return obs
 
 
